@@ -21,5 +21,5 @@ fuzz_target!(|data: &[u8]| {
     }
     actors.push(common::actor(1, common::ops(&mut u, 50, &[POP, POP, POP, POP, BULK, BULK, PEEK, LEN, EMPTY, YIELD])));
     let sched = common::schedule(&mut u);
-    common::execute(Case { fam: "q_mpsc".into(), workers: 1, pool: 1, feat: 0, cfg: vec![kind, offset, left], actors, sched }, run_fifo);
+    common::execute(Case { fam: "q_mpsc".into(), workers: 1, pool: 1, feat: 0, cfg: vec![kind, offset, left], actors, sched, weak: 0 }, run_fifo);
 });
